@@ -230,6 +230,18 @@ pub fn has_unsupported_array(v: &Value) -> bool {
     }
 }
 
+/// Does the value contain an array with a described element (where SizeSerializer and
+/// Serializer differ: class `c20-size-described-array-elems`)?
+pub fn has_described_array_elem(v: &Value) -> bool {
+    match v {
+        Value::Described(d) => has_described_array_elem(&d.value),
+        Value::List(l) => l.iter().any(has_described_array_elem),
+        Value::Map(m) => m.iter().any(|(k, x)| has_described_array_elem(k) || has_described_array_elem(x)),
+        Value::Array(a) => a.0.iter().any(|x| matches!(x, Value::Described(_)) || has_described_array_elem(x)),
+        _ => false,
+    }
+}
+
 /// counts (list32/map32/array elements) above the decoder's cap
 pub fn exceeds_count_cap(v: &Value) -> bool {
     match v {
